@@ -654,6 +654,12 @@ structure Tables where
   attrs : List (Nat × String × Ex.Val)
   comps : List (Nat × Option Ex.Val)
 
+/-- Python's `needle in hay` for strings -/
+def isSubstr (needle hay : String) : Bool :=
+  let n := needle.toList
+  let h := hay.toList
+  (List.range (h.length + 1)).any (fun i => (h.drop i).take n.length == n)
+
 def concreteOps (t : Tables) : Ops where
   unary := fun op v => match op, toInt? v with
     | .neg, some i => .ok (.int (-i))
@@ -685,12 +691,14 @@ def concreteOps (t : Tables) : Ops where
     else if op == ">=" then (do let l ← valLt b a; pure (.bool (l || valEq a b)))
     else if op == "is" then .ok (.bool (match a, b with | .none, .none => true | .bool x, .bool y => x == y | _, _ => false))
     else if op == "is not" then .ok (.bool (!(match a, b with | .none, .none => true | .bool x, .bool y => x == y | _, _ => false)))
-    else if op == "in" then (match b with
-      | .list xs | .tuple xs | .set xs | .dict xs _ => .ok (.bool (xs.any (valEq a)))
-      | _ => .error "TypeError")
-    else if op == "not in" then (match b with
-      | .list xs | .tuple xs | .set xs | .dict xs _ => .ok (.bool (!xs.any (valEq a)))
-      | _ => .error "TypeError")
+    else if op == "in" then (match b, a with
+      | .list xs, _ | .tuple xs, _ | .set xs, _ | .dict xs _, _ => .ok (.bool (xs.any (valEq a)))
+      | .str hay, .str needle => .ok (.bool (isSubstr needle hay))
+      | _, _ => .error "TypeError")
+    else if op == "not in" then (match b, a with
+      | .list xs, _ | .tuple xs, _ | .set xs, _ | .dict xs _, _ => .ok (.bool (!xs.any (valEq a)))
+      | .str hay, .str needle => .ok (.bool (!isSubstr needle hay))
+      | _, _ => .error "TypeError")
     else .error "NotImplemented"
   truth := fun v => .ok (truthOf v)
   attr := fun v a => match v with
